@@ -52,6 +52,19 @@ fn real_main(args: &[String]) -> i32 {
                 .min(16)
         });
     match cmd {
+        "clock-selftest" => {
+            // the clock seam: std's clocks must follow the simulated jump
+            let (i0, s0) = (std::time::Instant::now(), std::time::SystemTime::now());
+            rl2tp_dst::env::clock_jump(7_000_000_000);
+            let (di, ds) = (i0.elapsed(), s0.elapsed().unwrap_or_default());
+            if di.as_secs() >= 7 && di.as_secs() < 9 && ds.as_secs() >= 7 && ds.as_secs() < 9 {
+                println!("clock seam ok: Instant +{:?}, SystemTime +{:?} after a 7 s jump", di, ds);
+                0
+            } else {
+                println!("SELFTEST-FAIL clock seam: Instant +{:?}, SystemTime +{:?} after a 7 s jump", di, ds);
+                1
+            }
+        }
         "gen-collisions" => {
             rl2tp_dst::collisions::generate();
             0
